@@ -1,104 +1,536 @@
-"""Structural obligation of C13: every clock read and every raw comparison on a time-typed value in src/ is a known,
-reviewed site.
+"""Structural + behavioural obligation of C13: time values are compared only through the primitives of N2kTimer.h, and the
+primitives behave as Basic/Time.lean and Model/Heartbeat.lean say.
 
-Lists (a) every call of N2kMillis() / N2kMillis64() / millis() and (b) every assignment of an integer literal to a time-typed identifier (an absolute stamp) and (c) every line that compares or subtracts a time-typed
-identifier (fields/locals declared with an integer type and a time-like name, or a clock read) with a relational operator
-or a binary minus, in src/*.cpp and src/*.h (comments stripped). The list must equal the committed whitelist
-time_sites_whitelist.json (each entry carries its review class). A site that is not on the whitelist - e.g. a new raw
-`<` on a time field - raises, which check.py reports as a broken proof obligation; a whitelisted site that disappeared is
-reported in the statistics only (harmless)."""
-import os, re, json, glob
+(1) OUTSIDE the primitives (every src/*.cpp, src/*.h except N2kTimer.h / N2kTimer.cpp) the translator finds every SITE where a
+time value is an operand of a relational operator (< > <= >= == !=), of a binary + or - (also += -=), or is assigned an integer
+literal (an absolute stamp). A time value is: a clock read N2kMillis() / N2kMillis64() / millis(), a call of a getter whose name
+is time-like, an identifier declared with an integer type and a time-like name, or a local initialised / assigned from one of
+those (its class is inherited: `const unsigned long CurTime=N2kMillis()` is the clock, `SlotMsgTime=...MsgTime` is MsgTime).
+A site is keyed SEMANTICALLY by (file, enclosing function, operator class, set of time classes involved) - not by its text, line
+or the names of locals - and must be on the reviewed whitelist time_sites_whitelist.json. A clock read that is only stored or
+passed on (argument of a primitive, right-hand side of an assignment) is not a site; it is counted in the statistics.
+A site that is not on the whitelist (a new raw comparison, subtraction or constant on a time value) raises = broken obligation.
+
+(2) The primitives themselves may change form freely. They are EXTRACTED BY EXECUTION: N2kTimer.h / N2kTimer.cpp are compiled in
+both timer flavours (64-bit scheduler with clock_gettime interposed, 32-bit scheduler with a harness millis()) and
+N2kIsTimeBefore, N2kHasElapsed, tN2kScheduler::FromNow/IsTime, tN2kSyncScheduler::UpdateNextTime/IsTime/SetSyncOffset and the
+N2kMillis64 roll counter are evaluated on a grid around 0, 2^31, 2^32, 2^64 and the sentinel plus random points from a fixed
+seed. The table is written to lean/N2k/Gen/TimePrimitives.lean together with theorems stating that the Lean definitions give
+exactly these values, proved by kernel evaluation (`decide`); the translator also compares the table with a Python copy of the
+definitions only to print a readable message when they differ (the Lean kernel is the judge)."""
+import os, re, json, glob, subprocess, tempfile, shutil, random
 
 HERE = os.path.dirname(os.path.abspath(__file__))
 WHITELIST = os.path.join(HERE, 'time_sites_whitelist.json')
+PRIMITIVE_FILES = ('N2kTimer.h', 'N2kTimer.cpp')
 
-CLOCK = re.compile(r'\b(N2kMillis64|N2kMillis|millis)\s*\(\s*\)')
-DECL = re.compile(r'\b(?:unsigned\s+long|uint32_t|uint64_t|tN2kSchedulerTime)\s+((?:\w+\s*(?:=[^,;]*)?,\s*)*\w+)\s*(?:=[^;]*)?;')
-TIMEY = re.compile(r'(Time|Millis|Requested$|LastRead|SyncOffset|Timeout|^Now$|^now$|Elapsed|^Start$|^T1$|^T2$)')
-NOT_TIMEY = re.compile(r'^n[A-Z]')     # counters such as nProdIRequested
+CLOCKS = ('N2kMillis', 'N2kMillis64', 'millis')
+INT_TYPES = r'(?:unsigned\s+long|uint32_t|uint64_t|tN2kSchedulerTime)'
+TIMEY = re.compile(r'(Time|Millis|Requested$|LastRead|SyncOffset|Timeout|^Now$|^now$|Elapsed|^Start$|^T1$|^T2$|Deadline)')
+NOT_TIMEY = re.compile(r'^n[A-Z]|^N2kDL_|^Max_|^N2k.*Timeout$|^Max.*Time$')
+KEYWORDS = {'if', 'while', 'for', 'switch', 'return', 'sizeof', 'catch', 'else', 'do', 'new', 'delete', 'case', 'const', 'static',
+            'inline', 'virtual', 'bool', 'int', 'long', 'unsigned', 'char', 'void', 'double', 'float', 'struct', 'class', 'typename'}
+TOKEN = re.compile(r'\s*(0[xX][0-9a-fA-F]+[uUlL]*|\d+\.?\d*[uUlLfF]*|[A-Za-z_]\w*|->|<<=|>>=|<<|>>|<=|>=|==|!=|&&|\|\||\+\+|--|\+=|-=|\*=|/=|::|.)', re.S)
+REL = {'<', '>', '<=', '>=', '==', '!='}
+ARITH = {'+', '-', '+=', '-='}
 
 
 def strip_comments(text):
     def repl(m):
         s = m.group(0)
-        return re.sub(r'[^\n]', ' ', s) if s.startswith('/') else s
-    return re.sub(r'//[^\n]*|/\*.*?\*/|"(?:\\.|[^"\\])*"', repl, text, flags=re.S)
+        if s.startswith('/'):
+            return re.sub(r'[^\n]', ' ', s)
+        return '""' if s.startswith('"') else "' '"
+    return re.sub(r'//[^\n]*|/\*.*?\*/|"(?:\\.|[^"\\])*"|\'(?:\\.|[^\'\\])\'', repl, text, flags=re.S)
 
 
-def time_identifiers(texts):
+def strip_preproc(text):
+    return '\n'.join('' if l.lstrip().startswith('#') else l for l in re.sub(r'\\\n', ' ', text).split('\n'))
+
+
+def tokens(text):
+    return [m.group(1) for m in TOKEN.finditer(text) if m.group(1).strip()]
+
+
+def is_ident(t):
+    return bool(re.match(r'[A-Za-z_]\w*$', t))
+
+
+def timey(name):
+    return bool(TIMEY.search(name)) and not NOT_TIMEY.search(name)
+
+
+def functions(toks):
+    """yield (function name, token list of the body) for every function body; nested class bodies are descended into"""
+    out = []
+
+    def block_end(i):      # toks[i] == '{' -> index of matching '}'
+        d = 0
+        while i < len(toks):
+            if toks[i] == '{':
+                d += 1
+            elif toks[i] == '}':
+                d -= 1
+                if d == 0:
+                    return i
+            i += 1
+        return len(toks) - 1
+
+    def header_name(i):    # toks[i] == '{'; look back for `name ( ... ) [const] [: init-list]`
+        j = i - 1
+        # skip constructor initialiser list and trailing qualifiers
+        depth = 0
+        k = j
+        while k >= 0 and not (toks[k] in (';', '}', '{') and depth == 0):
+            if toks[k] == ')':
+                depth += 1
+            elif toks[k] == '(':
+                depth -= 1
+            k -= 1
+        seg = toks[k + 1:i]
+        if not seg:
+            return None, 'block'
+        if '(' not in seg and any(k in seg for k in ('class', 'struct', 'namespace', 'enum', 'union', 'extern')):
+            return None, 'scope'
+        if '=' in seg and '(' not in seg[:seg.index('=')]:
+            return None, 'init'          # array / struct initialiser
+        # first '(' at depth 0 preceded by an identifier that is not a keyword
+        d = 0
+        for p, t in enumerate(seg):
+            if t == '(' and d == 0 and p > 0 and is_ident(seg[p - 1]) and seg[p - 1] not in KEYWORDS:
+                return seg[p - 1], 'func'
+            if t == '(':
+                d += 1
+            elif t == ')':
+                d -= 1
+        return None, 'block'
+
+    def walk(lo, hi, infunc):
+        i = lo
+        while i < hi:
+            if toks[i] == '{':
+                e = block_end(i)
+                name, kind = header_name(i)
+                if infunc is None and kind == 'func':
+                    out.append((name, toks[i + 1:e]))
+                elif infunc is None and kind == 'scope':
+                    walk(i + 1, e, None)
+                i = e + 1
+            else:
+                i += 1
+    walk(0, len(toks), None)
+    return out
+
+
+def left_operand(toks, i):
+    """token span of the postfix expression ending at toks[i-1]"""
+    j = i - 1
+    while j >= 0:
+        t = toks[j]
+        if t in (')', ']'):
+            close, open_ = t, '(' if t == ')' else '['
+            d = 0
+            while j >= 0:
+                if toks[j] == close:
+                    d += 1
+                elif toks[j] == open_:
+                    d -= 1
+                    if d == 0:
+                        break
+                j -= 1
+            j -= 1
+            # a call / index: continue with the callee; a parenthesised expression: stop unless preceded by an identifier
+            if j >= 0 and (is_ident(toks[j]) and toks[j] not in KEYWORDS):
+                continue
+            if j >= 0 and toks[j] in (')', ']'):
+                continue
+            break
+        if is_ident(t) and t not in KEYWORDS or re.match(r'\d', t):
+            j -= 1
+            if j >= 0 and toks[j] in ('.', '->', '::'):
+                j -= 1
+                continue
+            break
+        break
+    return toks[j + 1:i]
+
+
+def right_operand(toks, i):
+    j = i + 1
+    while j < len(toks) and toks[j] in ('!', '~', '-', '+', '*', '&'):
+        j += 1
+    start = j
+    while j < len(toks):
+        t = toks[j]
+        if t in ('(', '['):
+            close = ')' if t == '(' else ']'
+            d = 0
+            while j < len(toks):
+                if toks[j] == t:
+                    d += 1
+                elif toks[j] == close:
+                    d -= 1
+                    if d == 0:
+                        break
+                j += 1
+            j += 1
+            if j < len(toks) and (toks[j] in ('.', '->', '(', '[') or (toks[j - 1] == ')' and is_ident(toks[j]) and start == j - 0)):
+                if toks[j] in ('.', '->'):
+                    j += 1
+                continue
+            break
+        if is_ident(t) and t not in KEYWORDS or re.match(r'\d', t):
+            j += 1
+            if j < len(toks) and toks[j] in ('.', '->', '::'):
+                j += 1
+                continue
+            if j < len(toks) and toks[j] in ('(', '['):
+                continue
+            break
+        break
+    return toks[start:j]
+
+
+class Classes:
+    """time classes of identifiers inside one function: fields/parameters are their own class, locals inherit"""
+    def __init__(self, globals_, body):
+        self.map = {g: {g} for g in globals_}
+        # locals: declarations `type name = expr` / assignments `name = expr` from a time value
+        changed = True
+        rounds = 0
+        while changed and rounds < 6:
+            changed = False
+            rounds += 1
+            for i, t in enumerate(body):
+                if t == '=' and i > 0 and is_ident(body[i - 1]) and (i < 2 or body[i - 2] not in ('.', '->')):
+                    name = body[i - 1]
+                    rhs = right_operand(body, i)
+                    # only a plain copy: the right-hand side is one postfix expression followed by ; , or )
+                    after = body[i + 1 + len(rhs)] if i + 1 + len(rhs) < len(body) else ';'
+                    if after not in (';', ',', ')'):
+                        continue
+                    cl = self.of(rhs)
+                    if cl and not cl <= self.map.get(name, set()):
+                        declared_local = name not in globals_
+                        if declared_local or timey(name):
+                            self.map[name] = self.map.get(name, set()) | cl if declared_local else self.map.get(name, {name}) | set()
+                            if declared_local:
+                                changed = True
+
+    def of(self, operand):
+        """set of time classes of an operand token list (empty = not a time value)"""
+        cl = set()
+        n = len(operand)
+        for p, t in enumerate(operand):
+            if not is_ident(t):
+                continue
+            nxt = operand[p + 1] if p + 1 < n else ''
+            if t in CLOCKS and nxt == '(':
+                cl.add('clock')
+            elif nxt == '(':
+                if timey(t) and t.startswith('Get'):
+                    cl.add(t[3:])
+            elif nxt in ('.', '->', '::'):
+                continue                      # object / namespace part of a chain
+            elif t in self.map:
+                cl |= self.map[t]
+        return cl
+
+
+def global_time_identifiers(texts):
     ids = set()
+    decl = re.compile(r'\b' + INT_TYPES + r'\s+((?:\w+\s*(?:=[^,;()]*)?,\s*)*\w+)\s*(?:=[^;()]*)?;')
+    par = re.compile(r'\b' + INT_TYPES + r'\s+(\w+)\s*(?:=[^,)]*)?[,)]')
     for t in texts.values():
-        for m in DECL.finditer(t):
+        for m in decl.finditer(t):
             for part in m.group(1).split(','):
                 name = part.split('=')[0].strip()
-                if name and TIMEY.search(name) and not NOT_TIMEY.search(name):
+                if name and timey(name):
                     ids.add(name)
-        # function parameters of the primitives
-        for m in re.finditer(r'\b(?:uint32_t|uint64_t|unsigned\s+long)\s+(\w+)\s*(?:=[^,)]*)?[,)]', t):
-            if TIMEY.search(m.group(1)) and not NOT_TIMEY.search(m.group(1)):
+        for m in par.finditer(t):
+            if timey(m.group(1)):
                 ids.add(m.group(1))
     return ids
 
 
-def norm(line):
-    return re.sub(r'\s+', ' ', line).strip()
-
-
 def scan(src):
     files = sorted(glob.glob(os.path.join(src, '*.cpp')) + glob.glob(os.path.join(src, '*.h')))
-    texts = {os.path.basename(f): strip_comments(open(f, errors='replace').read()) for f in files}
-    ids = time_identifiers(texts)
-    idre = re.compile(r'\b(' + '|'.join(sorted(map(re.escape, ids))) + r')\b') if ids else None
-    sites = []
-    for fn, t in texts.items():
-        for line in t.split('\n'):
-            if not line.strip() or line.lstrip().startswith('#include'):
-                continue
-            reads = CLOCK.findall(line)
-            code = norm(line)
-            for _ in reads:
-                sites.append((fn, 'read', code))
-            mention = bool(reads) or (idre is not None and idre.search(line))
-            if idre is not None:
-                for m in re.finditer(r'\b(' + '|'.join(sorted(map(re.escape, ids))) + r')\s*=\s*(0[xX][0-9a-fA-F]+|\d+)\b(?!\s*[-+*/])', line):
-                    sites.append((fn, 'const', code))
-            if mention:
-                l2 = re.sub(r'->|<<|>>|<\s*\w+\s*>|\+\+|--|-=|\+=', ' ', line)
-                if re.search(r'<=|>=|==|!=|<|>', l2) or re.search(r'[\w)\]]\s*-\s*[\w(]', l2):
-                    sites.append((fn, 'compare', code))
-    return sites, sorted(ids)
+    texts = {os.path.basename(f): strip_preproc(strip_comments(open(f, errors='replace').read())) for f in files}
+    gids = global_time_identifiers(texts)
+    sites, reads, stored_reads = [], 0, 0
+    for fn, text in texts.items():
+        toks = tokens(text)
+        nreads = sum(1 for i, t in enumerate(toks) if t in CLOCKS and i + 1 < len(toks) and toks[i + 1] == '(' and (i == 0 or toks[i - 1] not in ('uint32_t', 'uint64_t', 'long')))
+        reads += nreads
+        if fn in PRIMITIVE_FILES:
+            continue
+        direct = 0
+        for fname, body in functions(toks):
+            cls = Classes(gids, body)
+            for i, t in enumerate(body):
+                if i == 0 or i + 1 >= len(body):
+                    continue
+                prev = body[i - 1]
+                binary = is_ident(prev) and prev not in KEYWORDS or prev in (')', ']') or re.match(r'\d', prev)
+                if t in REL or t in ARITH:
+                    if not binary:
+                        continue
+                    lo, ro = left_operand(body, i), right_operand(body, i)
+                    cl = cls.of(lo) | cls.of(ro)
+                    if cl:
+                        sites.append((fn, fname, 'rel' if t in REL else 'arith', tuple(sorted(cl))))
+                        if 'clock' in cls.of([x for x in lo + ro if x in CLOCKS or x == '(']):
+                            direct += 1
+                elif t == '=' and binary and re.match(r'(0[xX][0-9a-fA-F]+|\d+)[uUlL]*$', body[i + 1]) and (i + 2 >= len(body) or body[i + 2] in (';', ',', ')')):
+                    lo = left_operand(body, i)
+                    cl = cls.of(lo)
+                    # only declared time identifiers (fields, parameters, time-named locals): a stamp set to a constant
+                    if cl and lo and lo[-1] in cls.map:
+                        sites.append((fn, fname, 'const', tuple(sorted(cl))))
+        stored_reads += max(nreads - direct, 0)
+    return sites, {'clock_reads': reads, 'clock_reads_stored_or_passed_outside_primitives': stored_reads, 'time_identifiers': sorted(gids)}
 
 
 def key(s):
-    return '%s|%s|%s' % s
+    return '%s|%s|%s|%s' % (s[0], s[1], s[2], '+'.join(s[3]))
+
+
+# ------------------------------------------------------------------------------------------- primitives by execution
+
+EXTRACT_CPP = r'''
+#include <cstdio>
+#include <cstdint>
+#include <cstdlib>
+#include <time.h>
+static uint64_t g_now = 0;
+#ifdef T32
+extern "C" uint32_t millis() { return (uint32_t)g_now; }
+#else
+extern "C" int clock_gettime(clockid_t, struct timespec *ts) { ts->tv_sec = (time_t)(g_now / 1000); ts->tv_nsec = (long)(g_now % 1000) * 1000000L; return 0; }
+#endif
+#include "N2kTimer.h"
+struct S : public tN2kScheduler { unsigned long long raw() const { return (unsigned long long)NextTime; } void set(unsigned long long v) { NextTime = (tN2kSchedulerTime)v; } };
+struct Y : public tN2kSyncScheduler { static void so(uint64_t v) { SyncOffset = v; } static unsigned long long getso() { return SyncOffset; } void set(uint64_t n, uint32_t o, uint32_t p) { NextTime = n; Offset = o; Period = p; } };
+int main(int argc, char **argv) {
+  FILE *f = fopen(argv[1], "r"); if (!f) return 2;
+  int kind; unsigned long long a, b, c, d;
+  while (fscanf(f, "%d %llu %llu %llu %llu", &kind, &a, &b, &c, &d) == 5) {
+    unsigned long long r = 0;
+    switch (kind) {
+      case 0: r = N2kIsTimeBefore((uint32_t)a, (uint32_t)b); break;
+      case 1: r = N2kHasElapsed((uint32_t)a, (uint32_t)b, (uint32_t)c); break;
+      case 2: case 4: { S s; g_now = a; s.FromNow((uint32_t)b); r = s.raw(); break; }
+      case 3: case 5: { S s; s.set(a); g_now = b; r = s.IsTime(); break; }
+      case 6: { Y y; Y::so(a); y.set(0, (uint32_t)b, (uint32_t)c); g_now = d; y.UpdateNextTime(); r = y.GetNextTime(); break; }
+      case 7: { Y y; y.set(a, 0, 1); g_now = b; r = y.IsTime(); break; }
+      case 8: { g_now = a; Y::SetSyncOffset(); r = Y::getso(); break; }
+      case 9: { g_now = a; r = N2kMillis64(); break; }
+      default: continue;
+    }
+    printf("%d %llu %llu %llu %llu %llu\n", kind, a, b, c, d, r);
+  }
+  return 0;
+}
+'''
+
+M32, M64, I32 = 1 << 32, 1 << 64, (1 << 31) - 1
+
+
+def grid_points():
+    rnd = random.Random(20261001)
+    G = [0, 1, 2, 99, 100, 101, 1000, I32 - 1, I32, I32 + 1, I32 + 2, I32 - 100, I32 + 100, M32 - 1001, M32 - 251, M32 - 201, M32 - 101, M32 - 100, M32 - 99,
+         M32 - 2, M32 - 1]
+    Gs = [0, 1, 100, 1000, I32 - 1, I32, I32 + 1, I32 + 2, M32 - 1001, M32 - 101, M32 - 100, M32 - 2, M32 - 1]
+    E = [0, 1, 100, 250, 1000, I32 - 1, I32, I32 + 1, I32 + 2, M32 - 1]
+    D = [0, 1, 50, 100, 200, 250, 1000, 2737, I32, M32 - 1]
+    p32, p64 = [], []
+    for a in G:
+        for b in G:
+            p32.append((0, a, b, 0, 0)); p32.append((3, a, b, 0, 0))
+    for s in Gs:
+        for e in E:
+            for n in Gs:
+                p32.append((1, s, e, n, 0))
+    for c in G:
+        for d in D:
+            p32.append((2, c, d, 0, 0))
+    for _ in range(600):
+        a, b, c = rnd.randrange(M32), rnd.randrange(M32), rnd.randrange(M32)
+        p32 += [(0, a, b, 0, 0), (1, a, rnd.choice(E + [rnd.randrange(M32)]), c, 0), (3, rnd.choice([a, M32 - 1]), b, 0, 0), (2, a, rnd.choice(D + [rnd.randrange(M32)]), 0, 0)]
+    # the roll counter: one monotone-with-wraps sequence of millis() values (function-static state, evaluated in order)
+    t, roll = 0, []
+    for i in range(300):
+        t += rnd.choice([0, 1, 1, 7, 1000, I32, I32 + 1, M32 - 1, rnd.randrange(M32)])
+        roll.append((9, t % M32, 0, 0, 0))
+    G64 = [0, 1, 1000, M32 - 1, M32, M32 + 1, 1 << 40, (1 << 63), M64 - 1001, M64 - 2, M64 - 1]
+    for c in G64:
+        for d in D:
+            p64.append((4, c, d, 0, 0))
+        for n in G64:
+            p64.append((5, c, n, 0, 0)); p64.append((7, c, n, 0, 0))
+        p64.append((8, c, 0, 0, 0))
+    for so in [0, 1000, M32 - 5, 1 << 33, (1 << 40) + 17]:
+        for off in [0, 1, 500, 10000, M32 - 1]:
+            for per in [0, 1, 1000, 60000, 655320, M32 - 1]:
+                base = so + off
+                for now in [0, so, max(base - 1, 0), base, base + 1, base + per - 1 if per else base + 3, base + per, base + per + 1, base + 5 * per + 7, 1 << 41]:
+                    p64.append((6, so, off, per, now))
+    for _ in range(400):
+        so, off, per = rnd.randrange(1 << 41), rnd.randrange(M32), rnd.choice([0, 1, 1000, 60000, rnd.randrange(1, M32)])
+        p64.append((6, so, off, per, rnd.randrange(1 << 42)))
+        p64.append((4, rnd.randrange(M64), rnd.randrange(M32), 0, 0)); p64.append((5, rnd.randrange(M64), rnd.randrange(M64), 0, 0))
+    return p32, roll, p64
+
+
+def run_extract(src, flavour_flags, points, tmp, tag):
+    cpp = os.path.join(tmp, 'extract.cpp')
+    open(cpp, 'w').write(EXTRACT_CPP)
+    exe = os.path.join(tmp, 'extract_' + tag)
+    r = subprocess.run(['g++', '-std=c++11', '-O1', '-I' + src] + flavour_flags + [cpp, os.path.join(src, 'N2kTimer.cpp'), '-o', exe],
+                       stdout=subprocess.PIPE, stderr=subprocess.STDOUT, text=True)
+    if r.returncode != 0:
+        raise RuntimeError('primitive extraction program does not compile (%s): %s' % (tag, r.stdout[-600:]))
+    inp = os.path.join(tmp, 'points_' + tag)
+    open(inp, 'w').write(''.join('%d %d %d %d %d\n' % p for p in points))
+    r = subprocess.run([exe, inp], stdout=subprocess.PIPE, stderr=subprocess.PIPE, text=True, timeout=120)
+    if r.returncode != 0:
+        raise RuntimeError('primitive extraction program failed (%s): %s' % (tag, r.stderr[-300:]))
+    rows = [tuple(int(x) for x in l.split()) for l in r.stdout.split('\n') if l.strip()]
+    if len(rows) != len(points):
+        raise RuntimeError('primitive extraction returned %d rows for %d points' % (len(rows), len(points)))
+    return rows
+
+
+# Python copy of the Lean definitions - used only to print a readable message; the Lean kernel checks the generated file
+def model(kind, a, b, c, d, roll_state):
+    sub32 = lambda x, y: (x % M32 + M32 - y % M32) % M32
+    if kind == 0:
+        return int(sub32(b, a) < I32)
+    if kind == 1:
+        return int(sub32(c, (a + b) % M32) < I32)
+    if kind == 2:
+        n = (a % M32 + b) % M32
+        return 0 if n == M32 - 1 else n
+    if kind == 3:
+        return int(a != M32 - 1 and sub32(b % M32, a) < I32)
+    if kind == 4:
+        return (a + b) % M64
+    if kind in (5, 7):
+        return int(b > a)
+    if kind == 6:
+        so, off, per, now = a, b, c, d
+        if per == 0:
+            return M64 - 1
+        return off + so if off + so > now else so + off + ((now - (off + so)) // per + 1) * per
+    if kind == 8:
+        return a
+    if kind == 9:
+        rc, last = roll_state
+        if last > a:
+            rc = (rc + 1) % M32
+        roll_state[0], roll_state[1] = rc, a
+        return rc * M32 + a
+    return None
+
+
+LEAN_HEAD = '''import N2k.Model.Heartbeat
+/-! GENERATED by tools/translators/time_sites.py from src/N2kTimer.h, src/N2kTimer.cpp - do not edit.
+The primitives of the library EXTRACTED BY EXECUTION (both timer flavours, controllable clock) on a grid of points around
+0, 2^31, 2^32, 2^64 and the scheduler's sentinel plus random points from a fixed seed; each theorem states, and the kernel
+checks by evaluation, that the Lean definitions of `Basic/Time.lean` / `Model/Heartbeat.lean` give exactly the extracted values.
+Row = (kind, a, b, c, d, result): 0 N2kIsTimeBefore(a,b) · 1 N2kHasElapsed(a,b,c) · 2 32-bit FromNow(b) at clock a -> NextTime ·
+3 32-bit IsTime with NextTime a at clock b · 4/5 the same for the 64-bit scheduler · 6 tN2kSyncScheduler::UpdateNextTime with
+SyncOffset a, Offset b, Period c at clock d -> NextTime · 7 its IsTime with NextTime a at clock b · 8 SetSyncOffset at clock a ->
+SyncOffset · `rollIn`/`rollOut`: successive millis() values and what the 32-bit build's N2kMillis64() returned. -/
+namespace N2k.Gen.TimePrimitives
+open N2k.Time N2k.Heartbeat
+
+def b2n (b : Bool) : Nat := if b then 1 else 0
+
+def chk (r : Nat × Nat × Nat × Nat × Nat × Nat) : Bool :=
+  match r with
+  | (0, a, b, _, _, x) => b2n (isTimeBefore a b) == x
+  | (1, a, b, c, _, x) => b2n (hasElapsed a b c) == x
+  | (2, a, b, _, _, x) => (Sched.fromNow .t32 a b).next == x
+  | (3, a, b, _, _, x) => b2n (Sched.isTime .t32 ⟨a⟩ b) == x
+  | (4, a, b, _, _, x) => (Sched.fromNow .t64 a b).next == x
+  | (5, a, b, _, _, x) => b2n (Sched.isTime .t64 ⟨a⟩ b) == x
+  | (6, a, b, c, d, x) => (SyncSched.updateNextTime a d ⟨0, b, c⟩).next == x
+  | (7, a, b, _, _, x) => b2n (SyncSched.isTime ⟨a, 0, 1⟩ b) == x
+  | (8, a, _, _, _, x) => a == x
+  | _ => false
+
+/-- successive calls of the 32-bit build's `N2kMillis64()` while `millis()` returns the listed values -/
+def rollRun : Roll → List Nat → List Nat
+  | _, [] => []
+  | r, m :: ms => (r.read m).2 :: rollRun (r.read m).1 ms
+
+'''
+
+
+def write_lean(gen_dir, rows, roll_in, roll_out):
+    chunks = [rows[i:i + 200] for i in range(0, len(rows), 200)]
+    out = [LEAN_HEAD]
+    for n, ch in enumerate(chunks):
+        out.append('def tbl%d : List (Nat × Nat × Nat × Nat × Nat × Nat) := [\n' % n)
+        out.append(',\n'.join('  (%d, %d, %d, %d, %d, %d)' % r for r in ch))
+        out.append(']\ntheorem tbl%d_agrees : tbl%d.all chk = true := by decide\n\n' % (n, n))
+    out.append('def rollIn : List Nat := [%s]\n' % ', '.join(map(str, roll_in)))
+    out.append('def rollOut : List Nat := [%s]\n' % ', '.join(map(str, roll_out)))
+    out.append('set_option maxRecDepth 20000 in\ntheorem roll_agrees : (rollRun {} rollIn == rollOut) = true := by decide\n\nend N2k.Gen.TimePrimitives\n')
+    path = os.path.join(gen_dir, 'TimePrimitives.lean')
+    text = ''.join(out)
+    if not os.path.exists(path) or open(path).read() != text:
+        open(path, 'w').write(text)
+    return len(chunks) + 1
+
+
+def extract_primitives(src, gen_dir):
+    p32, roll, p64 = grid_points()
+    tmp = tempfile.mkdtemp(prefix='tprim_')
+    try:
+        r32 = run_extract(src, ['-U__linux__', '-U__linux', '-Ulinux', '-DT32=1'], roll + p32, tmp, 't32')
+        # kinds 0/1 are also evaluated in the 64-bit flavour (same header text, different platform branch)
+        r64 = run_extract(src, [], p64 + [p for p in p32 if p[0] in (0, 1)][:800], tmp, 't64')
+    finally:
+        shutil.rmtree(tmp, ignore_errors=True)
+    roll_rows, rows = r32[:len(roll)], r32[len(roll):] + r64
+    st = [0, 0]
+    for r in roll_rows + rows:
+        want = model(r[0], r[1], r[2], r[3], r[4], st)
+        if want != r[5]:
+            raise RuntimeError('primitive disagrees with the Lean definition: kind %d (a=%d b=%d c=%d d=%d): code %d, model %d' % (r + (want,)))
+    nthm = write_lean(gen_dir, rows, [r[1] for r in roll_rows], [r[5] for r in roll_rows]) if gen_dir else 0
+    return {'points': len(rows) + len(roll_rows), 'generated_theorems': nthm}
 
 
 def run(src, gen_dir=None):
-    sites, ids = scan(src)
+    sites, stats = scan(src)
     have = {}
     for s in sites:
         have[key(s)] = have.get(key(s), 0) + 1
     wl = json.load(open(WHITELIST))
-    want = {}
-    classes = {}
+    want, classes = set(), {}
     for e in wl['sites']:
-        k = key((e['file'], e['kind'], e['code']))
-        want[k] = e.get('count', 1)
-        classes[e['class']] = classes.get(e['class'], 0) + e.get('count', 1)
-    new = sorted(k for k in have if have[k] > want.get(k, 0))
-    gone = sorted(k for k in want if want[k] > have.get(k, 0))
+        want.add(key((e['file'], e['function'], e['op'], tuple(sorted(e['ids'])))))
+        classes[e['class']] = classes.get(e['class'], 0) + 1
+    new = sorted(k for k in have if k not in want)
+    gone = sorted(k for k in want if k not in have)
     if new:
-        raise RuntimeError('clock reads / raw time comparisons not on the reviewed whitelist: ' + ' ;; '.join(new[:6]))
-    return {'sites': len(sites), 'clock_reads': sum(1 for s in sites if s[1] == 'read'),
-            'comparisons': sum(1 for s in sites if s[1] == 'compare'), 'constant_stamps': sum(1 for s in sites if s[1] == 'const'), 'time_identifiers': ids,
-            'whitelist_classes': classes, 'whitelisted_sites_not_found': gone, 'obligations': 1}
+        raise RuntimeError('raw comparison / arithmetic / constant on a time value outside the primitives, not on the reviewed whitelist '
+                           '(file|function|operator|time classes): ' + ' ;; '.join(new[:6]))
+    prim = extract_primitives(src, gen_dir)
+    stats.update({'sites_outside_primitives': len(sites), 'distinct_sites': len(have), 'whitelist_classes': classes,
+                  'whitelisted_sites_not_found': gone, 'primitive_points': prim['points'],
+                  'obligations': 1 + prim['generated_theorems']})
+    return stats
 
 
 if __name__ == '__main__':
     import sys
     src = sys.argv[1] if len(sys.argv) > 1 else '/repo/src'
     if len(sys.argv) > 2 and sys.argv[2] == '--dump':
-        sites, ids = scan(src)
-        print(json.dumps({'ids': ids, 'sites': sites}, indent=1))
+        sites, stats = scan(src)
+        print(json.dumps({'stats': stats, 'sites': sorted(set(key(s) for s in sites))}, indent=1))
     else:
-        print(json.dumps(run(src), indent=1))
+        print(json.dumps(run(src, sys.argv[2] if len(sys.argv) > 2 else None), indent=1))
